@@ -17,5 +17,17 @@ MCSizes64(c) ==
     <<65535, 65535, 65535, 61440>>,          \* 2^64 - 4096: the largest size whose round-up does not wrap
     <<65535, 65535, 65535, 61441>>,          \* 2^64 - 4095: the smallest whose round-up wraps
     <<65535, 65535, 65535, 65535>> }         \* 2^64 - 1
+\* satisfiable HUGE sizes: 2^32 pages and more (page count with low 32 bits zero / small); they fit below the
+\* temporary-mapping page, so the mappers must go on mapping until the seam's budget is used up
+MCHuge64 == { <<0, 4096, 0, 0>>,             \* 2^44 = 2^32 pages
+              <<0, 4096, 0, 1>>,             \* 2^44 + 1
+              <<0, 4096, 0, 20480>>,         \* 2^44 + 5 pages
+              <<0, 8192, 0, 8209>>,          \* 2^45 + 2 pages + 17
+              <<0, 12288, 0, 0>> }           \* 3 * 2^44
+MCSizes64H(c) == MCSizes64(c) \cup MCHuge64
+\* reduced family (quick tier, and sequences of three)
+MCSizes64Q(c) == { N(0), N(1), N(4097), W!Sub(c, N(4095)), c, W!Add(c, N(1)),
+                   <<65535, 65535, 65535, 61441>>, <<65535, 65535, 65535, 65535>>,
+                   <<0, 4096, 0, 0>>, <<0, 4096, 0, 20480>>, <<0, 12288, 0, 0>> }
 MCFrames64 == {<<0, 0, 13, 61440>>}          \* frame 0xdf000
 ====
